@@ -23,7 +23,7 @@ GROUP = ["(", ")", "(?:", "(?=", "(?!", "(?<=", "(?<!", "(?<n>", "(?<m>", "\\k<n
          "(?i:", "(?-i:", "(?i-i:", "(?-:", "|", "a", "*", "?", "+", "\\b", "^", "{", "}", "\\k", "\\0", "\\8", ".", "[a]"]
 CLASS = ["[", "[^", "]", "a", "b", "-", "&", "&&", "--", "\\p{L}", "\\P{L}", "\\p{RGI_Emoji}", "\\P{RGI_Emoji}", "\\p{Foo}",
          "\\p{Script=Greek}", "\\q{a|bc}", "\\q{a}", "\\q{}", "\\q{", "\\d", "\\W", "\\-", "\\&", "\\b", "\\B", "^", "!", "|", "(",
-         "\\cA", "\\c", "\\u{61}", "\\x", "1", "\\1"]
+         "\\cA", "\\c", "\\u{61}", "\\x", "1", "\\1", "&-b", "!-b"]
 NAMES = ["((?<n>)|a)", "(a|(?<n>))", "(?<n>)", "(?<m>)", "|", "(", "(?:", ")", "\\k<n>", "a", "(?=", "(?<n", ">", "(?<1>)", "(?<$_>)",
          "\\k<m>", "\\k<$_>", "*", "[\\k]", "\\k"]
 UESC = ["\\u", "\\u{", "\\x", "{", "}", "+", "-", "61", "0061", "0", "d83d", "\\", "g", "[", "]", " ", "110000", "\\udc00"]
